@@ -130,6 +130,51 @@ def kids_in_sets(ctx, pop):
                     break
 
 
+def shared_parameters(ctx):
+    """One `parameters` dict reused for a batch of keys (generated with auto_kid, or imported and then `ensure_kid`-ed), through
+    the key classes, `JWKRegistry` and `KeySet.generate_key_set`: every key's automatic kid is ITS thumbprint, distinct keys get
+    distinct kids, and the caller's dict is left as it was."""
+    import copy as _copy
+    from joserfc.jwk import KeySet, JWKRegistry, OctKey, RSAKey, ECKey, OKPKey
+    plans = [("oct", OctKey, 128), ("EC", ECKey, "P-256"), ("OKP", OKPKey, "Ed25519"), ("OKP", OKPKey, "X25519")]
+    if ctx.tier != "quick":
+        plans += [("RSA", RSAKey, 2048), ("EC", ECKey, "P-521"), ("oct", OctKey, 8)]
+    for kty, cls, arg in plans:
+        for pname, params0 in (("use-alg", {"use": "sig", "alg": "X"}), ("empty", {}), ("with-kid", {"kid": "given"})):
+            for route in ("class.generate", "registry.generate", "class.import", "registry.import", "keyset.generate"):
+                params = _copy.deepcopy(params0)
+                keys = []
+                try:
+                    if route == "keyset.generate":
+                        keys = list(KeySet.generate_key_set(kty, arg, params, count=3).keys)
+                    else:
+                        for _ in range(3):
+                            if route == "class.generate":
+                                k = cls.generate_key(arg, params, auto_kid=True)
+                            elif route == "registry.generate":
+                                k = JWKRegistry.generate_key(kty, arg, params, auto_kid=True)
+                            else:
+                                src = cls.generate_key(arg)
+                                data = src.as_dict(private=True) if kty != "oct" and ctx.rng.random() < 0.5 else (src.as_pem() if kty != "oct" else src.raw_value)
+                                k = cls.import_key(data, params) if route == "class.import" else JWKRegistry.import_key(data, kty, params)
+                                k.ensure_kid()
+                            keys.append(k)
+                except Exception as e:  # noqa: BLE001
+                    ctx.report(f"{route} of {kty} keys with a shared parameters dict failed: {err_name(e)}", {"kty": kty, "route": route, "parameters": params0}, f"shared-params:{route}:error")
+                    continue
+                ctx.count("shared-parameters", (kty, repr(arg), pname, route), True, f"{route}:{pname}")
+                if params != params0:
+                    ctx.report(f"{route}: the caller's parameters dict was changed from {params0} to {params}", {"kty": kty, "route": route}, f"shared-params:{route}:dict-changed")
+                for i, k in enumerate(keys):
+                    want = params0.get("kid") or KC.ref_thumbprint(KC.native_of(k))
+                    if k.kid != want:
+                        ctx.report(f"{route}: key #{i} of a batch sharing one parameters dict has kid {k.kid!r}, expected {want!r} "
+                                   f"({'the given kid' if params0.get('kid') else 'its own RFC 7638 thumbprint'})",
+                                   {"kty": kty, "route": route, "parameters": params0, "index": i, "jwk": k.as_dict(private=False) if kty != "oct" else "oct"},
+                                   f"shared-params:{route}:kid")
+                        break
+
+
 def run(ctx):
     from joserfc.jwk import KeySet, JWKRegistry
     pop = KC.population(ctx)
@@ -195,6 +240,7 @@ def run(ctx):
             ctx.count("auto-kid", label, True, key.key_type)
             if gk.kid != KC.ref_thumbprint(KC.native_of(gk)):
                 ctx.report("generate_key(auto_kid=True) kid is not the thumbprint", {"kty": key.key_type}, "kid:auto")
+    shared_parameters(ctx)
     answers = model_eval(lines) if ctx.driver_ok else []
     for ln, f, m in zip(lines, impls, answers):
         try:
